@@ -5,7 +5,7 @@
     are Model/Pred.v (tied to the Go code by the correspondence run).
     [FR x] is the real number the float64 [x] denotes; [detR a b c] the exact determinant. *)
 From Coq Require Import ZArith Reals Floats Bool.
-From Geo Require Import Base.GoPrim Base.F64 Base.Exact Gen.R3 Gen.S2Pred Model.Pred Proofs.C02_Exact Proofs.C02_Float Proofs.C02_SoS Proofs.C02_SoSGlobal.
+From Geo Require Import Base.GoPrim Base.F64 Base.Exact Gen.R3 Gen.S2Pred Model.Pred Proofs.C02_Exact Proofs.C02_Float Proofs.C02_SoS Proofs.C02_SoSGlobal Proofs.C02_RelErr.
 Local Open Scope R_scope.
 
 (** exact stage ------------------------------------------------------------------------- *)
@@ -166,9 +166,17 @@ Theorem compare_distance_is_exact_comparison : H_TRIAGE_COS1 -> H_TRIAGE_SIN21 -
 Proof. exact compare_distance_spec. Qed.
 Print Assumptions compare_distance_is_exact_comparison.
 
-Theorem sign_dot_prod_is_exact : H_TRIAGE_DOT -> forall a b, finite a -> finite b ->
+(** H-TRIAGE-DOT is discharged (Flocq, underflow included): the float dot product of two vectors
+    of squared length <= 2 is finite and within 3.046875 * 2^-52 of the exact one. *)
+Theorem dot_product_error_bound : forall a b, finite a -> finite b -> norm2R a <= 2 -> norm2R b <= 2 ->
+  ffinite (fdot a b) = true /\ Rabs (FR (fdot a b) - dotR a b) <= D2R K_DOT.
+Proof. exact triage_dot_holds. Qed.
+Print Assumptions dot_product_error_bound.
+
+(** SignDotProd returns the exact sign: closed, no hypothesis *)
+Theorem sign_dot_prod_is_exact : forall a b, finite a -> finite b ->
   norm2R a <= 2 -> norm2R b <= 2 -> sign_dot_prod a b = sgnR (dotR a b).
-Proof. exact sign_dot_prod_spec. Qed.
+Proof. exact sign_dot_prod_exact. Qed.
 Print Assumptions sign_dot_prod_is_exact.
 
 (** symbolic perturbation ------------------------------------------------------------------
